@@ -36,6 +36,16 @@ def generate(tier, rng):
             labs = gen.tree_labels(t) + gen.tree_labels(other)[:2]
             pairs = [list(p) for p in itertools.product(labs, repeat=2)]
             yield {"fam": "walk", "trees": [t, other], "pairs": pairs, "cls": rng.choice(["nm", "light", "eq", "falsy"])}
+    # scale: deep and wide trees; ancestor/descendant pairs far apart, a node with itself deep down
+    for sh in gen.big_shapes(rng, tier):
+        t = gen.labelled(sh, rng, True)
+        labs = gen.tree_labels(t)
+        dl = gen.deep_labels(t)
+        h = len(dl)
+        pairs = [[dl[-1], dl[-1]], [dl[0], dl[-1]], [dl[-1], dl[0]], [dl[h // 2], dl[-1]], [dl[-1], dl[h // 2]],
+                 [dl[-2], dl[-1]], [dl[-1], dl[-2]], [dl[h // 2], dl[h // 2]], [labs[-1], dl[-1]], [dl[-1], labs[-1]]]
+        pairs += [[rng.choice(labs), rng.choice(labs)] for _ in range(10)]
+        yield {"fam": "walk", "trees": [t], "pairs": pairs, "cls": rng.choice(["nm", "light", "eq", "falsy"])}
     for _ in range(80 if tier == "quick" else 1000):
         n = rng.randrange(6, 16 if tier == "quick" else 41)
         t = gen.labelled(gen.random_shape(rng, n), rng, True)
